@@ -690,6 +690,22 @@ pub fn run(ctx: &Ctx) -> (Stats, Report) {
             payloads.push((Kind::Time, format!("\"{}\"", hms(t))));
             payloads.push((Kind::Time, format!("\"{}\"", hms(t + US_PER_DAY))));
         }
+        // the first / last valid text of every type with the extensions other notations allow:
+        // shorter / longer fractions, zone designators, trailing text
+        for kind in KINDS {
+            let toks = tokenize(layout(kind)).unwrap();
+            let (lo, hi) = strat::limits(kind);
+            for raw in [lo, hi, 0] {
+                let base = render(&Val::new(kind, raw), &toks).unwrap().text;
+                for suffix in [".5", ".500", ".999", ".9999999", ".999999999", "5", "9", "Z", "z", " Z", "+00", "+00:00", " UTC", " ", "  ", ".", ":59", " 23:59:59.5", "T23:59:59.9"] {
+                    payloads.push((kind, format!("\"{base}{suffix}\"")));
+                    if base.len() > 7 {
+                        // the same with the last characters of the canonical text removed first
+                        payloads.push((kind, format!("\"{}{suffix}\"", &base[..base.len() - 7])));
+                    }
+                }
+            }
+        }
         for (kind, payload) in payloads {
             st.evaluations += 1;
             st.nontrivial_enum += 1;
@@ -756,7 +772,7 @@ pub fn run(ctx: &Ctx) -> (Stats, Report) {
     st.section("concurrent_histories", &mut mark);
 
     let rep = Report {
-        rule: "Round trips through serde_json and bincode: all dates, every second of the day x {0,1,999999} us, boundary+seeded pools of all six types; the JSON text must equal the reference rendering of the fixed layout in quotes and the binary form the little-endian raw count. Decoding: raw integers at every range limit +-0..3 and +-1e6, the i32/i64 extremes and seeded integers (uniform over the integer width, around the range, inside the range) as bincode payloads of every type (non-whole-second counts for the Oracle date included); JSON payloads made by 1..3 random edits of valid strings plus non-string JSON, every single-character substitution of canonical texts (every position x 16 characters incl. the ISO 'T' / 'Z' letters) x four paddings, text payloads written field by field at the limits (limit day count +-1 x every boundary / binary-boundary time of day x sign, limit years x months, first / last supported dates and their outside neighbours x times), and long strings (valid or empty head + filler of every length 0..=600, 5000 in thorough, + a 2-, 3- or 4-byte character, so that a multi-byte character straddles every byte offset); integers handed to Deserialize in every width (i8..i128, u8..u128) by serde's de::value deserializers - range limits, small values and their images shifted by multiples of 2^8..2^65, extremes, seeded values: Err, or exactly the value whose raw count is that integer (never a truncated image). Concurrent histories: 16 threads, each walking its own three days (staying on a day 3 times out of 4) and round-tripping every value twice, so that any state the library shares between calls is hit from several threads (schedule-dependent: sound on any tree, sensitivity probabilistic). Oracle: round trip returns the same value; any other payload yields Err or a value satisfying the range predicate (whole seconds for the Oracle date). Non-trivial = every round-tripped value; out-of-range binary payloads; every perturbed JSON payload (distinct by content).".into(),
+        rule: "Round trips through serde_json and bincode: all dates, every second of the day x {0,1,999999} us, boundary+seeded pools of all six types; the JSON text must equal the reference rendering of the fixed layout in quotes and the binary form the little-endian raw count. Decoding: raw integers at every range limit +-0..3 and +-1e6, the i32/i64 extremes and seeded integers (uniform over the integer width, around the range, inside the range) as bincode payloads of every type (non-whole-second counts for the Oracle date included); JSON payloads made by 1..3 random edits of valid strings plus non-string JSON, every single-character substitution of canonical texts (every position x 16 characters incl. the ISO 'T' / 'Z' letters) x four paddings, text payloads written field by field at the limits (limit day count +-1 x every boundary / binary-boundary time of day x sign, limit years x months, first / last supported dates and their outside neighbours x times, the first / last valid text of every type with 19 extension suffixes such as shorter / longer fractions and zone designators), and long strings (valid or empty head + filler of every length 0..=600, 5000 in thorough, + a 2-, 3- or 4-byte character, so that a multi-byte character straddles every byte offset); integers handed to Deserialize in every width (i8..i128, u8..u128) by serde's de::value deserializers - range limits, small values and their images shifted by multiples of 2^8..2^65, extremes, seeded values: Err, or exactly the value whose raw count is that integer (never a truncated image). Concurrent histories: 16 threads, each walking its own three days (staying on a day 3 times out of 4) and round-tripping every value twice, so that any state the library shares between calls is hit from several threads (schedule-dependent: sound on any tree, sensitivity probabilistic). Oracle: round trip returns the same value; any other payload yields Err or a value satisfying the range predicate (whole seconds for the Oracle date). Non-trivial = every round-tripped value; out-of-range binary payloads; every perturbed JSON payload (distinct by content).".into(),
         assumptions: vec!["bincode 1.3 default configuration (little-endian fixed-width integers) and serde_json as the two data formats".into()],
         exhaustive: false,
         extra: Default::default(),
